@@ -274,6 +274,8 @@ class OpsMixin:
                     other.opt = False
                 return res
             if isinstance(other, (Unknown, SVal)):
+                if getattr(other, "not_none", False):
+                    return False
                 return self.decide(f"isnone:{other.desc}", [False, True])
             return False
         if isinstance(l, Cst) and isinstance(r, Cst):
